@@ -134,6 +134,28 @@ def main():
                     if alive:
                         mism.append(dict(fam=fam, kind='cycle-not-collected', container=kind, entries=n, back_reference_at=at,
                                          real='%d of %d stored objects still alive after gc.collect()' % (alive, stored)))
+    # ---- (c) byValue(): reports (value, key) pairs; the stored objects keep exactly their references
+    if oval:
+        gc.disable()
+        for kind, cls in (('Bucket', BU), ('BTree', BT)):
+            for n in (1, 3, 7):
+                c = cls({key(i): val(i) for i in range(n)})
+                base = refs()
+                for _ in range(3):
+                    try:
+                        r = c.byValue(pool[20])
+                        got = [(v, k) for v, k in r]
+                        del r, got
+                    except Exception as e:
+                        mism.append(dict(fam=fam, kind='byValue-raises', container=kind, real=repr(e)))
+                        break
+                now = refs()
+                counts['byvalue'] = counts.get('byvalue', 0) + 1
+                if now != base:
+                    mism.append(dict(fam=fam, kind='ledger-after-byValue', container=kind, entries=n,
+                                     delta_real_model={i: now[i] - base[i] for i in range(len(pool)) if now[i] != base[i]}))
+                del c
+        gc.enable()
     embed.restore_sizes(old)
     json.dump(dict(counts=counts, mismatches=mism[:40]), open(sys.argv[2], 'w'), default=repr)
 
